@@ -61,11 +61,22 @@ use serde_json::{json, Value};
 pub struct ZstManyMut;
 
 fn zst_tuple<const N: usize>(n: usize, req: [usize; N]) -> Result<(), String> {
-    type T = hashbrown::HashTable<(), CheckAlloc>;
+    zst_tuple_of::<(), N>(n, req)?;
+    // over-aligned zero-sized elements: the references handed out must be aligned
+    zst_tuple_of::<[u64; 0], N>(n, req)?;
+    zst_tuple_of::<ZAlign64, N>(n, req)
+}
+
+#[derive(Default, Clone, Copy)]
+#[repr(align(64))]
+struct ZAlign64;
+
+fn zst_tuple_of<Z: Default + 'static, const N: usize>(n: usize, req: [usize; N]) -> Result<(), String> {
+    type T<Z> = hashbrown::HashTable<Z, CheckAlloc>;
     let hash_of = |i: usize| mk_hash(3 * i as u64 + 1, 0x20 + i as u8);
-    let mut t = T::with_capacity_in(14, CheckAlloc);
+    let mut t = T::<Z>::with_capacity_in(14, CheckAlloc);
     for i in 0..n {
-        t.insert_unique(hash_of(i), (), |_| unreachable!("a table with spare capacity must not re-hash"));
+        t.insert_unique(hash_of(i), Z::default(), |_| unreachable!("a table with spare capacity must not re-hash"));
     }
     // request index n = a hash nothing was inserted with
     let hashes: [u64; N] = std::array::from_fn(|i| hash_of(req[i]));
@@ -77,12 +88,20 @@ fn zst_tuple<const N: usize>(n: usize, req: [usize; N]) -> Result<(), String> {
             }
         }
     }
-    let what = format!("HashTable<()> with {n} entries (distinct hashes): get_many_mut(requests {:?}, entry index {n} is absent)", req);
+    let what = format!("HashTable<{}> with {n} entries (distinct hashes): get_many_mut(requests {:?}, entry index {n} is absent)", std::any::type_name::<Z>(), req);
     let r = env::catch(|| {
         let res = t.get_many_mut(hashes, |_, _| true);
         let out: [bool; N] = std::array::from_fn(|i| res[i].is_some());
-        out
+        // read the references as plain integers: the optimiser may assume that a `&mut Z` is aligned and fold the test away
+        let raw: [usize; N] = unsafe { std::mem::transmute_copy(std::hint::black_box(&res)) };
+        let misaligned = raw.iter().any(|&a| a != 0 && a % std::mem::align_of::<Z>() != 0);
+        (out, misaligned)
     });
+    let r = match r {
+        Ok((_, true)) => return Err(format!("{what} returned a reference that is not aligned for its type (alignment {})", std::mem::align_of::<Z>())),
+        Ok((out, false)) => Ok(out),
+        Err(m) => Err(m),
+    };
     match r {
         Err(m) => {
             if !expect_panic {
@@ -400,7 +419,86 @@ fn scripted_case(n: u32, reqs: usize, bits: u32, len: u32, map: bool) -> Result<
     }
 }
 
+/// Keys whose own `==` is not reflexive (a NaN-like key type with a safe `impl Eq`), looked up through a borrowed
+/// form that matches by identity: "the same entry requested twice" must be decided by the entry, not by `K == K`.
+fn nonreflexive_keys(count: &mut u64) -> Result<(), String> {
+    #[derive(Clone, Copy, Debug)]
+    struct NanKey(u32);
+    impl PartialEq for NanKey {
+        fn eq(&self, _: &NanKey) -> bool {
+            false
+        }
+    }
+    impl Eq for NanKey {}
+    impl std::hash::Hash for NanKey {
+        fn hash<H: std::hash::Hasher>(&self, s: &mut H) {
+            s.write_u32(7);
+        }
+    }
+    #[derive(Clone, Copy, Debug)]
+    struct ById(u32);
+    impl std::hash::Hash for ById {
+        fn hash<H: std::hash::Hasher>(&self, s: &mut H) {
+            s.write_u32(7);
+        }
+    }
+    impl hashbrown::Equivalent<NanKey> for ById {
+        fn equivalent(&self, k: &NanKey) -> bool {
+            self.0 == k.0
+        }
+    }
+    for n in 1..=4u32 {
+        for a in 0..=n {
+            for b in 0..=n {
+                for c in 0..=n {
+                    *count += 1;
+                    let mut m: hashbrown::HashMap<NanKey, u32, ConstBuild> = hashbrown::HashMap::with_hasher(ConstBuild);
+                    for i in 0..n {
+                        m.insert(NanKey(i), i);
+                    }
+                    let req = [ById(a), ById(b), ById(c)];
+                    let dup = (a == b && a < n) || (a == c && a < n) || (b == c && b < n);
+                    let what = format!("HashMap with {n} keys whose == is never true, get_many_mut / get_many_key_value_mut({:?}) ({n} = absent)", [a, b, c]);
+                    for kv in [false, true] {
+                        let r = env::catch(|| {
+                            if kv {
+                                m.get_many_key_value_mut([&req[0], &req[1], &req[2]]).map(|o| o.map(|(_, v)| (v as *const u32 as usize, *v)))
+                            } else {
+                                m.get_many_mut([&req[0], &req[1], &req[2]]).map(|o| o.map(|v| (v as *const u32 as usize, *v)))
+                            }
+                        });
+                        match r {
+                            Err(msg) => {
+                                if !dup || !msg.contains("duplicate") {
+                                    return Err(format!("{what}: panicked ({msg}); a panic is expected exactly when one stored entry is requested twice ({dup})"));
+                                }
+                            }
+                            Ok(got) => {
+                                if dup {
+                                    return Err(format!("{what}: returned {:?} although one entry was requested twice", got.map(|g| g.map(|x| x.1))));
+                                }
+                                for (i, id) in [a, b, c].into_iter().enumerate() {
+                                    if got[i].map(|g| g.1) != if id < n { Some(id) } else { None } {
+                                        return Err(format!("{what}: request #{i} gave {:?}", got[i].map(|g| g.1)));
+                                    }
+                                    for j in 0..i {
+                                        if got[i].is_some() && got[i].map(|g| g.0) == got[j].map(|g| g.0) {
+                                            return Err(format!("{what}: requests #{j} and #{i} got references to the same entry"));
+                                        }
+                                    }
+                                }
+                            }
+                        }
+                    }
+                }
+            }
+        }
+    }
+    Ok(())
+}
+
 fn scripted_all(tier: Tier, count: &mut u64) -> Result<(), (Value, String)> {
+    nonreflexive_keys(count).map_err(|m| (json!({"scripted_eq": {"nonreflexive_keys": true}}), m))?;
     let len: u32 = if tier == Tier::Quick { 10 } else { 14 };
     for map in [false, true] {
         for n in 1..=4u32 {
@@ -444,6 +542,10 @@ impl Config for ScriptedEq {
         let c = &rp["scripted_eq"];
         let g = |k: &str| c[k].as_u64().unwrap_or(0);
         env::reset();
+        if c["nonreflexive_keys"].as_bool() == Some(true) {
+            let mut n = 0;
+            return nonreflexive_keys(&mut n);
+        }
         scripted_case(g("n") as u32, g("reqs") as usize, g("bits") as u32, g("len") as u32, c["map"].as_bool().unwrap_or(false))
     }
 }
